@@ -54,7 +54,11 @@ def outcome(thunk):
     try:
         return ("ok", thunk())
     except Exception as e:  # noqa: BLE001
-        return ("exc", type(e).__name__, str(e)[:160])
+        chain, x = [], e
+        while x is not None and len(chain) < 6:
+            chain.append(type(x).__name__)
+            x = x.__cause__ or x.__context__
+        return ("exc", type(e).__name__, str(e)[:160], chain)
 
 
 def same(real, exp):
@@ -62,7 +66,8 @@ def same(real, exp):
         return False
     if real[0] == "ok":
         return type(real[1]) is type(exp[1]) and real[1] == exp[1]
-    return real[1] == exp[1]
+    # a task exception must surface: the same type, or an exception chained from it (MPPoolExec.map re-raises as ValueError from e)
+    return real[1] == exp[1] or exp[1] in real[3]
 
 
 def gen_call(rng, backend, quick):
